@@ -10,6 +10,15 @@ namespace U128
 @[simp] theorem Out.bind_divzero {α β : Type} (f : α → Out β) : (Out.divzero : Out α).bind f = .divzero := rfl
 @[simp] theorem Out.map_ok {α β : Type} (v : α) (f : α → β) : (Out.ok v).map f = .ok (f v) := rfl
 
+theorem Out.ofRes_ite {α : Type} (c : Prop) [Decidable c] (a b : Res α) :
+    Out.ofRes (if c then a else b) = if c then Out.ofRes a else Out.ofRes b := by
+  split <;> rfl
+@[simp] theorem Out.ofRes_ok {α : Type} (v : α) : Out.ofRes (Res.ok v) = Out.ok v := rfl
+@[simp] theorem Out.ofRes_panic {α : Type} : Out.ofRes (Res.panic : Res α) = Out.divzero := rfl
+theorem Out.ok_ite {α : Type} (c : Prop) [Decidable c] (a b : α) :
+    (Out.ok (if c then a else b) : Out α) = if c then Out.ok a else Out.ok b := by
+  split <;> rfl
+
 theorem hwDiv_ok (x y : W) (h : y ≠ 0#64) : hwDiv x y = .ok (x / y) := by unfold hwDiv; rw [if_neg h]
 theorem hwMod_ok (x y : W) (h : y ≠ 0#64) : hwMod x y = .ok (x % y) := by unfold hwMod; rw [if_neg h]
 
@@ -77,8 +86,7 @@ theorem by128C_ok (u n : U128) (h0 : ¬ (n.hi = 0#64 ∧ n.lo = 0#64)) :
     · simp only [hlt, if_false, hwDiv_ok _ _ hlo, hwMod_ok _ _ hlo, by64C_ok _ _ _ (vn1_ne _ hlo), Out.bind_ok]
   · simp only [hh, if_false]
     rw [by64C_ok _ _ _ (vn1_top _ (leftShift_clz_hi n hh))]
-    simp only [Out.bind_ok]
-    split <;> rfl
+    simp only [Out.bind_ok, Out.ok_ite]
 
 /-- … while the kernel called WITHOUT the normalisation count divides by a zero digit: `5 / 1` with `nLeading0 = 0`
     (contrast: it is the leading-zero count passed by the callers that keeps `vn1` non-zero) -/
@@ -100,16 +108,7 @@ theorem divModC_eq (u n : U128) : divModC u n = Out.ofRes (divMod u n) := by
   · have hlo : n.lo ≠ 0#64 := fun e => h1 ⟨h3.1, e⟩
     rw [if_pos h3, if_pos h3, hwDiv_ok _ _ hlo, hwMod_ok _ _ hlo]; rfl
   rw [if_neg h3, if_neg h3]
-  simp only []
-  split
-  · rfl
-  split
-  · rfl
-  split
-  · rfl
-  split
-  · rw [by128C_ok u n h1]; rfl
-  · rfl
+  simp only [by128C_ok u n h1, Out.ofRes_ite, Out.ofRes_ok]
 
 theorem divC_eq (u n : U128) : divC u n = Out.ofRes (div u n) := by
   unfold divC div
@@ -124,16 +123,7 @@ theorem divC_eq (u n : U128) : divC u n = Out.ofRes (div u n) := by
   · have hlo : n.lo ≠ 0#64 := fun e => h1 ⟨h3.1, e⟩
     rw [if_pos h3, if_pos h3, hwDiv_ok _ _ hlo]; rfl
   rw [if_neg h3, if_neg h3]
-  simp only []
-  split
-  · rfl
-  split
-  · rfl
-  split
-  · rfl
-  split
-  · rw [by128C_ok u n h1]; rfl
-  · rfl
+  simp only [by128C_ok u n h1, Out.ofRes_ite, Out.ofRes_ok, Out.map_ok]
 
 theorem modC_eq (u n : U128) : modC u n = Out.ofRes (mod u n) := by
   unfold modC mod
@@ -148,16 +138,7 @@ theorem modC_eq (u n : U128) : modC u n = Out.ofRes (mod u n) := by
   · have hlo : n.lo ≠ 0#64 := fun e => h1 ⟨h3.1, e⟩
     rw [if_pos h3, if_pos h3, hwMod_ok _ _ hlo]; rfl
   rw [if_neg h3, if_neg h3]
-  simp only []
-  split
-  · rfl
-  split
-  · rfl
-  split
-  · rfl
-  split
-  · rw [by128C_ok u n h1]; rfl
-  · rfl
+  simp only [by128C_ok u n h1, Out.ofRes_ite, Out.ofRes_ok, Out.map_ok]
 
 theorem divModWC_eq (u : U128) (n : W) : divModWC u n = Out.ofRes (divModW u n) := by
   unfold divModWC divModW
@@ -287,3 +268,42 @@ theorem modWC_eq (i : I128) (n : W) : modWC i n = Out.ofRes (modW i n) := by
   cases (divModW i n) <;> rfl
 
 end I128
+
+/-! ## the fuel of the fuelled correction loop is an artefact of the model: from 2 on it does not matter -/
+namespace U128
+theorem corrLoop_one (vn1 vn0 unx : W) (hv : 2^31 ≤ vn1.toNat) (hv2 : vn1.toNat < 2^32)
+    (g : Nat) (q r l rt : W) (h1 : 2^31 ≤ r.toNat) (h3 : r.toNat < 2^32) :
+    corrLoop vn1 vn0 unx (g+1) q r l rt = corrLoop vn1 vn0 unx 1 q r l rt := by
+  have hb : bit32.toNat = 2^32 := by decide
+  have hs : ¬ (r + vn1).toNat < bit32.toNat := by
+    rw [BitVec.toNat_add, hb]; omega
+  rw [corrLoop, corrLoop]
+  simp only [hs, if_false]
+
+/-- the fuel of the correction loop is irrelevant from 2 on -/
+theorem corrLoop_fuel (vn1 vn0 unx q rhat left right : W) (hv : 2^31 ≤ vn1.toNat) (hv2 : vn1.toNat < 2^32)
+    (hr : rhat.toNat < 2^32) (f : Nat) :
+    corrLoop vn1 vn0 unx (f+2) q rhat left right = corrLoop vn1 vn0 unx 2 q rhat left right := by
+  have hb : bit32.toNat = 2^32 := by decide
+  rw [corrLoop, corrLoop.eq_def vn1 vn0 unx 2]
+  simp only []
+  by_cases hc : q.toNat ≥ bit32.toNat ∨ left.toNat > right.toNat
+  · rw [if_pos hc, if_pos hc]
+    by_cases hlt : (rhat + vn1).toNat < bit32.toNat
+    · rw [if_pos hlt, if_pos hlt]
+      have e : (rhat + vn1).toNat = rhat.toNat + vn1.toNat := by rw [BitVec.toNat_add]; omega
+      rw [corrLoop_one vn1 vn0 unx hv hv2 f _ _ _ _ (by omega) (by omega)]
+    · rw [if_neg hlt, if_neg hlt]
+  · rw [if_neg hc, if_neg hc]
+
+/-- the top digit of a divisor normalised by its own leading-zero count is a full 32-bit digit -/
+theorem vn1_range (n : W) (hn : n ≠ 0#64) :
+    2^31 ≤ ((n <<< clz n) >>> 32).toNat ∧ ((n <<< clz n) >>> 32).toNat < 2^32 := by
+  obtain ⟨_, hlo, hhi⟩ := clz_bounds n hn
+  rw [shr32, BitVec.toNat_shiftLeft, Nat.shiftLeft_eq, Nat.mod_eq_of_lt hhi]
+  omega
+
+theorem mod_lt32 (x v : W) (hv : 0 < v.toNat) (hv2 : v.toNat < 2^32) : (x % v).toNat < 2^32 := by
+  rw [BitVec.toNat_umod]; have := Nat.mod_lt x.toNat hv; omega
+
+end U128
